@@ -10,6 +10,7 @@ Case lines
   3 i k code a b          op for native node i in its k-th user-code run (k=-1 start hook, k=-2 default)
      code 1 schedule(now+a, tag b)  2 un_schedule(tag b)  3 un_schedule()  4 pop_tag(b)  5 reset()
           6 emit a + sum(valid inputs)  7 graph.schedule_node(self, now+a)  8 throw
+          9 / 10 input[a].make_passive() / make_active()   11 out.invalidate()
   Node lines (2/4/5) appear in node order, the index is the position (the order IS the ranking).
 Collection-shaped feedback through the wiring layer (ORACLE-ONLY cases: no Coq mirror of collection deltas;
 `agree` accepts them, the oracle decides):
@@ -27,6 +28,7 @@ Observation lines
   13 ...                   scheduler queries after a scheduler op (as family core)
   14 i t v                 native node emitted v
   16 i t valid v lmt       output of feedback source i after it was evaluated at t (the reader-side port)
+  16 i t did               native node i invalidated its output at t (op 11; did = it held a value) - 4 fields
   17 i t s slot has v      after feedback sink i was evaluated at t: graph slot and delta state of source s
   20 t next                after the cycle at t: the graph's cached next scheduled time
   15 i valid v lmt         final output
@@ -87,7 +89,7 @@ class _B:
             i = self.native(1, 0, 1, [])
             self.op(i, -1, 1, pattern[0], 0)
             for k, gap in enumerate(pattern[1:]):
-                self.op(i, k, 6, rng.randint(-3, 9))
+                self.emit_or_invalidate(i, k)
                 self.op(i, k, 1, gap, rng.choice([0, 0, 1]))
             self.op(i, -2, 6, rng.randint(-3, 9))
         else:
@@ -98,10 +100,25 @@ class _B:
                 i = self.native(0, 0, 1, [])
                 self.op(i, -1, 7, pattern[0])
             for k, gap in enumerate(pattern[1:]):
-                self.op(i, k, 6, rng.randint(-3, 9))
+                self.emit_or_invalidate(i, k)
                 self.op(i, k, 7, gap)
             self.op(i, -2, 6, rng.randint(-3, 9))
         return i
+
+    def emit_or_invalidate(self, i, k):
+        """Mostly a write; sometimes the producer withdraws its value (op 11), alone, after or before a write."""
+        rng = self.rng
+        r = rng.random()
+        if r < 0.84:
+            self.op(i, k, 6, rng.randint(-3, 9))
+        elif r < 0.92:
+            self.op(i, k, 11)
+        elif r < 0.96:
+            self.op(i, k, 6, rng.randint(-3, 9))
+            self.op(i, k, 11)
+        else:
+            self.op(i, k, 11)
+            self.op(i, k, 6, rng.randint(-3, 9))
 
     def recorder(self, srcs, active=True):
         i = self.native(0, 0, 0, [(s, 1 if active else 0, 0) for s in srcs], 1)
@@ -308,6 +325,8 @@ def gen(rng, tier, prop):
                         b.op(i, k, 0)
                 if rng.random() < 0.04:
                     b.op(i, rng.randint(1, 4), 8)
+                if rng.random() < 0.08:
+                    b.op(i, rng.randint(0, 4), 11)
             elif w == "r" and b.fb:
                 b.recorder([rng.choice(b.fb) for _ in range(rng.randint(1, 2))], active=rng.random() < 0.8)
             # bind pending sinks once a producer exists (after at least one more node, mostly)
@@ -501,9 +520,22 @@ def streams(case, out):
     for l in out:
         if l[0] == 14:
             w.setdefault(l[1], {})[l[2]] = l[3]
+        elif l[0] == 16 and len(l) == 4:
+            # a native producer invalidated its output (op 11): whatever it wrote earlier in this cycle is withdrawn
+            if l[3] == 1:
+                w.setdefault(l[1], {}).pop(l[2], None)
         elif l[0] == 16 and l[3] == 1 and l[5] == l[2]:
             w.setdefault(l[1], {})[l[2]] = l[4]
     return {i: sorted(d.items()) for i, d in w.items()}
+
+
+def notified(out):
+    """t -> nodes whose output notified its observers at t (a write or an invalidation)."""
+    n = {}
+    for l in out:
+        if l[0] == 14 or (l[0] == 16 and len(l) == 4 and l[3] == 1) or (l[0] == 16 and len(l) == 6 and l[3] == 1 and l[5] == l[2]):
+            n.setdefault(l[2], set()).add(l[1])
+    return n
 
 
 def _wired_parse(case, out):
@@ -604,6 +636,7 @@ def stats(case, out):
     return {"nodes": len(nodes), "cycles": len(cyc), "pairs": len(prs), "uncovered_pairs": sum(1 for x in prs if not x[3]),
             "with_init": sum(1 for nd in nodes if nd["kind"] == 1 and nd["init"] is not None),
             "deliveries": deliveries, "back_to_back_writes": back2back, "passive_fb_reads": passive_reads,
+            "invalidations": sum(1 for l in out if l[0] == 16 and len(l) == 4 and l[3] == 1) if ok else 0,
             "quiesced_before_end": int(ok and bool(cyc) and any(l[0] == 20 and l[2] == MAX_DT for l in out)),
             "ran_to_end": int(ok and bool(cyc) and cyc[-1] == end - 1),
             "error": int(any(l and l[0] == 19 for l in out)) if ok else 1}
@@ -703,10 +736,7 @@ def oracle(prop, case, out):
                 fails.append((kind, "node %d input %d (feedback %d) at %d sees %s, the delivered stream implies %s"
                               % (i, si, src, t, [valid, mod, val, lmt], exp)))
     # ---- activation: a native node without scheduling of its own runs only when an active input ticked
-    ticks = {}
-    for i, s in st.items():
-        for (t, _v) in s:
-            ticks.setdefault(t, set()).add(i)
+    ticks = notified(out)
     selfs = [i for i in range(n) if _self_scheduling(nodes, scripts, i)]
     for t, evs in evaluated.items():
         for i in evs:
